@@ -13,7 +13,7 @@ from . import c02, refasm
 
 ID = 'C14'
 BUDGET_S = {'quick': 170, 'thorough': 3600}
-SHAPE_WALL_S = {'quick': 100, 'thorough': 600}
+SHAPE_WALL_S = {'quick': 60, 'thorough': 600}
 FAMILY = ('PIPE with the image written: (a) seeded random programs with zero-length directives (.fill 0,x / .zero 0 / '
           '.zerountil behind the cursor / empty string) inserted at every position incl. first, last and at an address shared '
           'with another line, fill counts symbolic 0..3; (b) the same programs with one corrupted line (unknown mnemonic, '
@@ -68,6 +68,10 @@ FAULTS = [
     ('a_statement_no_variant_accepts', 'nop 5'),
     ('a_statement_no_variant_accepts', 'ld8 ra'),
     ('a_statement_no_variant_accepts', 'hlt 5'),
+    ('a_statement_no_variant_accepts', 'ld8 5,'),
+    ('a_statement_no_variant_accepts', 'ld8 ,5'),
+    ('a_statement_no_variant_accepts', 'nop ,'),
+    ('a_statement_no_variant_accepts', 'ret 1,,'),
     ('a_statement_no_variant_accepts', 'hlt ra'),
     ('a_statement_no_variant_accepts', 'ret 1, 2'),
     ('a_value_its_field_cannot_hold', 'ld8 big'),
@@ -76,6 +80,21 @@ FAULTS = [
     ('a_value_its_field_cannot_hold', 'ld12 posbig'),
     ('a_value_its_field_cannot_hold', 'ld12 0 - posbig'),
     ('a_garbled_line', '.byte 1 2'),
+    ('a_garbled_line', '.byte 1 ]'),
+    ('a_garbled_line', '.byte ]'),
+    ('a_garbled_line', '.2byte 5 }'),
+    ('a_garbled_line', '.byte "a" 5'),
+    ('a_garbled_line', '.cstr "a" ]'),
+    ('a_garbled_line', '.align 4 ]'),
+    ('a_garbled_line', 'kk = 5 ]'),
+    ('a_garbled_line', '.org 5 ]'),
+    ('a_garbled_line', '.zero 2 ]'),
+    ('a_garbled_line', 'nop ]'),
+    # long words where punctuation is missing: must fail, and fail in reasonable time
+    ('a_garbled_line', '.fill ' + 'a' * 36),
+    ('a_garbled_line', '.org ' + 'b' * 40 + ' "'),
+    ('a_garbled_line', '.byte ' + 'c' * 40 + ' ]'),
+    ('a_garbled_line', 'ld8 ' + 'd' * 40 + ' ]'),
     ('a_garbled_line', '.org'),
     ('a_garbled_line', '.fill 3'),
     ('a_garbled_line', '.byte (1 + 2'),
